@@ -763,6 +763,11 @@ func main() {
 	// 2. corpus, outstanding calls
 	parallel(corpus(), func(h *History) { evalHistory(h, "corpus") })
 	parallel(outstandingCases(), evalOutstanding)
+	nre := 120
+	if hx.Thorough() {
+		nre = 1500
+	}
+	parallel(rebindHistories(hx.Rand(), nre), evalRebind)
 
 	// 3. generated histories
 	n := 400
@@ -821,6 +826,8 @@ func replay(path string) {
 	for _, h := range hs {
 		if strings.HasPrefix(h.Ops[0], "outstanding") {
 			evalOutstanding(h)
+		} else if strings.HasPrefix(h.Ops[0], "rebind") {
+			evalRebind(h)
 		} else {
 			evalHistory(h, "replay")
 		}
